@@ -1,1 +1,2 @@
 import FsProofs.C12
+import FsProofs.C01
